@@ -1,4 +1,4 @@
-import MpVerif.C08.LemmasWalk
+import MpVerif.C08.LemmasReader
 /-!
 # C08 — property theorems
 
@@ -537,6 +537,32 @@ theorem C08_gen_namefile_removed :
   refine ⟨by decide, ?_, ?_, fun _ => rfl, fun _ _ => rfl⟩
   · intro cnt; simp [sfwRemoves]
   · intro cnt h b; simp [sfwRemoves, h]
+
+/-- THE READER SIDE, generated: `NLProblemBuilder<Problem>::AddVariables` (include/mp/nl-reader.h, incl. its header
+consistency checks and `MP_ASSERT_ALWAYS`s) run on the header the model writes never throws, and the `is_var_int_` vector
+its `AddVars` calls build (`varTypesOf`: vector resize semantics of `BasicProblem::AddVars`) is the model's `decodeIsInt` at
+every position; hence (with `C08_types`) the real reader's rule gives every caller column its own integrality at `vperm j` -/
+theorem C08_gen_reader_types (m : MatrixModel) (text : Bool) (flags : Nat) :
+    (addVariables m.n 0 (nlvo m) 0 (nbv m) (niv m) 0 0 (nlvoi m)).map varTypesOf =
+      some ((List.range m.n).map (decodeIsInt (header m text flags))) ∧
+    ∃ tys, (addVariables m.n 0 (nlvo m) 0 (nbv m) (niv m) 0 0 (nlvoi m)).map varTypesOf = some tys ∧
+      tys.length = m.n ∧ ∀ j, j < m.n → tys.getD (vperm m j) false = isInt m j := by
+  obtain ⟨hb, hs⟩ := header_counts_consistent m
+  have h := addVariables_easy m.n (nlvo m) (nlvoi m) (nbv m) (niv m) hb hs
+  rw [blocks_eq_decode _ _ _ _ _ hb hs] at h
+  have hd : (fun pos => if m.n - (nbv m + niv m) ≤ pos then true else decide (nlvo m - nlvoi m ≤ pos) && decide (pos < nlvo m)) =
+      decodeIsInt (header m text flags) := by
+    funext pos; rfl
+  rw [hd] at h
+  refine ⟨h, _, h, by simp, ?_⟩
+  intro j hj
+  rw [getD_map_range _ _ _ (vperm_lt m hj)]
+  exact C08_types m text flags j hj
+
+/-- instance: the header of the library's 6-variable MIQP (nlvo 3, nlvoi 1, nbv 1, niv 1) -/
+example : (addVariables 6 0 3 0 1 1 0 0 1).map varTypesOf = some [false, false, true, false, true, true] := by decide
+/-- an inconsistent header (more nonlinear variables than variables) makes the generated reader throw -/
+example : addVariables 2 0 3 0 0 0 0 0 2 = none := by decide
 
 end Gen
 
